@@ -51,7 +51,7 @@ Out(x) ==
 
 VARIABLE case
 HInit == /\ case \in Cases
-         /\ ns = [n \in Node |-> InitNode] /\ net = {} /\ budget = <<>> /\ elected = {} /\ comm = <<>> /\ voted = {} /\ viol = {}
+         /\ ns = [n \in Node |-> InitNode] /\ net = {} /\ budget = <<>> /\ elected = {} /\ comm = <<>> /\ voted = {} /\ acked = 0 /\ viol = {}
 HNext == UNCHANGED <<case, vars>>
 Emit == PrintT("CASE|" \o ToJson(Out(case)))
 =============================================================================
